@@ -59,7 +59,15 @@ pub struct Msg {
     /// END_STREAM on the head (only honoured when there are no chunks/trailers)
     pub eos_on_head: bool,
     pub end: EndKind,
+    /// submit a field the send API must refuse or strip (C13 send side): index into BAD_FIELDS + 1
+    #[serde(default)]
+    pub bad: u8,
+    /// after the last chunk keep the send handle and wait in poll_reset (resolves on reset or connection end)
+    #[serde(default)]
+    pub watch_reset: bool,
 }
+
+pub const BAD_FIELDS: &[(&str, &str)] = &[("connection", "close"), ("keep-alive", "1"), ("proxy-connection", "x"), ("transfer-encoding", "chunked"), ("upgrade", "h2c"), ("te", "gzip"), ("te", "trailers, deflate")];
 
 #[derive(Clone, Debug, PartialEq, Serialize, Deserialize)]
 pub enum Reader {
@@ -96,6 +104,10 @@ pub struct Req {
     pub drop_response_future: bool,
     /// client uses its own clone of SendRequest
     pub clone_handle: bool,
+    /// after sending this request the same task waits for readiness again on the same handle and sends a
+    /// small follow-up request (parks in poll_ready behind its own queued stream when the limit is reached)
+    #[serde(default)]
+    pub then_second: bool,
 }
 
 #[derive(Clone, Debug, Serialize, Deserialize)]
@@ -212,6 +224,8 @@ fn gen_msg(t: &mut Tape, focus: Focus, allow_big: bool) -> Msg {
         eos_on_head: t.chance(1, 2),
         chunks,
         end,
+        bad: if focus == Focus::Resets && t.chance(1, 12) { 1 + t.below(BAD_FIELDS.len()) as u8 } else { 0 },
+        watch_reset: focus == Focus::Faults && t.chance(1, 5),
     }
 }
 
@@ -271,6 +285,7 @@ pub fn gen_pair(tapes: &[Vec<u32>], focus: Focus) -> PairCase {
             pushes,
             drop_response_future: focus != Focus::Coop && t.chance(1, 10),
             clone_handle: t.chance(1, 3),
+            then_second: focus != Focus::Resets && t.chance(1, 6),
         });
     }
     // bound the number of DATA frames: with a window of w bytes a body of n bytes needs ≥ n/w frames
@@ -328,7 +343,14 @@ pub fn gen_pair(tapes: &[Vec<u32>], focus: Focus) -> PairCase {
             0 => {
                 fault = Some(Fault { c2s: t.bool(), at: t.below(3000) + if t.chance(1, 3) { t.below(60000) } else { 0 }, kind: *t.pick(&[CutKind::Eof, CutKind::ReadErr, CutKind::WriteErr, CutKind::WriteZero]) });
             }
-            1 => ops.push(ConnOp { side: Side::Server, after_events: t.below(60), cmd: ConnCmd::GracefulShutdown }),
+            1 => {
+                let at = t.below(60);
+                if t.chance(1, 2) {
+                    // a user PING written just before: two PINGs outstanding when the shutdown begins
+                    ops.push(ConnOp { side: Side::Server, after_events: at, cmd: ConnCmd::Ping });
+                }
+                ops.push(ConnOp { side: Side::Server, after_events: at, cmd: ConnCmd::GracefulShutdown });
+            }
             2 => ops.push(ConnOp { side: Side::Server, after_events: t.below(60), cmd: ConnCmd::AbruptShutdown(t.below(14) as u32) }),
             _ => ops.push(ConnOp { side: if t.bool() { Side::Client } else { Side::Server }, after_events: t.below(60), cmd: ConnCmd::DropConnection }),
         }
@@ -358,7 +380,7 @@ pub fn gen_pair(tapes: &[Vec<u32>], focus: Focus) -> PairCase {
 }
 
 pub fn empty_msg() -> Msg {
-    Msg { nfields: 0, big: 0, sensitive: false, chunks: vec![], trailers: None, eos_on_head: true, end: EndKind::Clean }
+    Msg { nfields: 0, big: 0, sensitive: false, chunks: vec![], trailers: None, eos_on_head: true, end: EndKind::Clean, bad: 0, watch_reset: false }
 }
 
 pub fn default_req(key: u32) -> Req {
@@ -378,6 +400,7 @@ pub fn default_req(key: u32) -> Req {
         pushes: vec![],
         drop_response_future: false,
         clone_handle: false,
+        then_second: false,
     }
 }
 
@@ -396,6 +419,10 @@ pub fn extra_fields(key: u32, m: &Msg, map: &mut http::HeaderMap) {
             v.set_sensitive(true);
         }
         map.append(http::header::HeaderName::from_bytes(name.as_bytes()).unwrap(), v);
+    }
+    if m.bad > 0 {
+        let (n, v) = BAD_FIELDS[(m.bad as usize - 1) % BAD_FIELDS.len()];
+        map.append(http::header::HeaderName::from_bytes(n.as_bytes()).unwrap(), http::HeaderValue::from_static(v));
     }
     if m.big > 0 {
         let s: String = (0..m.big).map(|i| (b'a' + ((i as u32 + key) % 26) as u8) as char).collect();
@@ -479,7 +506,7 @@ pub struct Ctx {
 
 // ------------------------------------------------------------ sending a message body
 
-async fn send_body(mut st: SendStream<SegBuf>, m: Msg, key: u32, side: Side, log: Log) {
+async fn send_body(mut st: SendStream<SegBuf>, m: Msg, key: u32, side: Side, log: Log, sp: Spawner) {
     let mut off = 0u64;
     let n = m.chunks.len();
     for (i, ch) in m.chunks.iter().enumerate() {
@@ -576,8 +603,17 @@ async fn send_body(mut st: SendStream<SegBuf>, m: Msg, key: u32, side: Side, log
             Err(e) => log.push(side, key, Api::SendErr { op: "send_data", err: err_info(&e) }),
         }
     }
-    // keep the handle until the stream is done so that dropping it is not a cancel: by now
-    // END_STREAM has been queued, so dropping is a no-op for the wire
+    if m.watch_reset {
+        // its own task (and task name): a reset wait on a stream that has finished sending
+        let name = format!("{}-resetwatch-{}", if side == Side::Client { "c" } else { "s" }, key);
+        let group = if side == Side::Client { Group::ClientApp } else { Group::ServerApp };
+        sp.spawn(name, group, async move {
+            let r = poll_fn(|cx| st.poll_reset(cx)).await;
+            log.push(side, key, Api::PollReset { result: r.map(u32::from).map_err(|e| err_info(&e)) });
+        });
+        return;
+    }
+    // by now END_STREAM has been queued, so dropping the handle is a no-op for the wire
     drop(st);
 }
 
@@ -816,11 +852,42 @@ async fn client_request(sr: client::SendRequest<SegBuf>, r: Req, ctx: Ctx) {
             return;
         }
     };
-    drop(sr);
     let sid = resp.stream_id().as_u32();
     log.push(Side::Client, key, Api::SentHead { kind: "request", stream: sid, fields, eos });
+    if r.then_second {
+        let ctx2 = ctx.clone();
+        let key2 = key + 500;
+        ctx.sp.spawn(format!("c-second-{}", key2), Group::ClientApp, async move {
+            match sr.ready().await {
+                Ok(mut sr) => {
+                    ctx2.log.push(Side::Client, key2, Api::Ready { result: Ok(()) });
+                    let req = http::Request::builder().method("GET").uri(format!("https://example.com/r/{}", key2)).header("x-id", key2.to_string()).body(()).unwrap();
+                    let f = vec![(":method".to_string(), "GET".to_string()), (":scheme".into(), "https".into()), (":authority".into(), "example.com".into()), (":path".into(), format!("/r/{}", key2)), ("x-id".into(), key2.to_string())];
+                    match sr.send_request(req, true) {
+                        Ok((resp, _st)) => {
+                            ctx2.log.push(Side::Client, key2, Api::SentHead { kind: "request", stream: resp.stream_id().as_u32(), fields: f, eos: true });
+                            match resp.await {
+                                Ok(resp) => {
+                                    let (parts, body) = resp.into_parts();
+                                    let mut f = vec![(":status".to_string(), parts.status.as_u16().to_string())];
+                                    f.extend(fields_of(&parts.headers));
+                                    ctx2.log.push(Side::Client, key2, Api::RecvHead { kind: "response", stream: body.stream_id().as_u32(), fields: f, eos: body.is_end_stream() });
+                                    read_body(body, Reader::Eager, key2, Side::Client, ctx2.log.clone()).await;
+                                }
+                                Err(e) => ctx2.log.push(Side::Client, key2, Api::RecvErr { op: "response", err: err_info(&e) }),
+                            }
+                        }
+                        Err(e) => ctx2.log.push(Side::Client, key2, Api::SendErr { op: "send_request", err: err_info(&e) }),
+                    }
+                }
+                Err(e) => ctx2.log.push(Side::Client, key2, Api::Ready { result: Err(err_info(&e)) }),
+            }
+        });
+    } else {
+        drop(sr);
+    }
     if !eos {
-        ctx.sp.spawn(format!("c-body-{}", key), Group::ClientApp, send_body(st, r.req.clone(), key, Side::Client, log.clone()));
+        ctx.sp.spawn(format!("c-body-{}", key), Group::ClientApp, send_body(st, r.req.clone(), key, Side::Client, log.clone(), ctx.sp.clone()));
     } else {
         drop(st);
     }
@@ -1040,7 +1107,7 @@ async fn server_handler(req: http::Request<RecvStream>, mut respond: server::Sen
                     Ok(st) => {
                         log.push(Side::Server, pkey, Api::SentHead { kind: "response", stream: psid, fields: f, eos });
                         if !eos {
-                            ctx.sp.spawn(format!("s-pushbody-{}", pkey), Group::ServerApp, send_body(st, p.resp.clone(), pkey, Side::Server, log.clone()));
+                            ctx.sp.spawn(format!("s-pushbody-{}", pkey), Group::ServerApp, send_body(st, p.resp.clone(), pkey, Side::Server, log.clone(), ctx.sp.clone()));
                         }
                     }
                     Err(e) => log.push(Side::Server, pkey, Api::SendErr { op: "send_response(pushed)", err: err_info(&e) }),
@@ -1067,7 +1134,7 @@ async fn server_handler(req: http::Request<RecvStream>, mut respond: server::Sen
         Ok(st) => {
             log.push(Side::Server, key, Api::SentHead { kind: "response", stream: sid, fields: f, eos });
             if !eos {
-                send_body(st, r.resp.clone(), key, Side::Server, log.clone()).await;
+                send_body(st, r.resp.clone(), key, Side::Server, log.clone(), ctx.sp.clone()).await;
             }
         }
         Err(e) => log.push(Side::Server, key, Api::SendErr { op: "send_response", err: err_info(&e) }),
